@@ -160,6 +160,41 @@ func (c *Ctx) effRoot(f *ssa.Function, depth int) *ssa.Function {
 	return owner
 }
 
+// effRoots: like effRoot, but for a private helper shared by several callers:
+// all the functions as part of which it can run (nil when it can also run
+// asynchronously, or is exported).
+func (c *Ctx) effRoots(f *ssa.Function, depth int) []*ssa.Function {
+	shippedAll := c.shippedFuncs(G, TD)
+	r := rootFn(f)
+	if depth > 4 || r.Object() == nil || r.Object().Exported() {
+		return []*ssa.Function{r}
+	}
+	seen := map[*ssa.Function]bool{}
+	var out []*ssa.Function
+	n := 0
+	for _, g := range shippedAll {
+		for _, ci := range an.Calls(g) {
+			if an.StaticCallee(ci.Common()) != r {
+				continue
+			}
+			n++
+			if !isCall(ci) || insideGoClosure(g) {
+				return []*ssa.Function{r}
+			}
+			for _, o := range c.effRoots(g, depth+1) {
+				if !seen[o] {
+					seen[o] = true
+					out = append(out, o)
+				}
+			}
+		}
+	}
+	if n == 0 {
+		return []*ssa.Function{r}
+	}
+	return out
+}
+
 func checkC15(c *Ctx) {
 	R := c.R
 	m := c.serverModel()
@@ -383,6 +418,22 @@ func checkC15(c *Ctx) {
 			if w == name || w == eff {
 				return true
 			}
+		}
+		// a private helper shared by several of the allowed writers (`m.register(r)` called by every registration method)
+		roots := c.effRoots(f, 0)
+		if len(roots) > 1 {
+			for _, o := range roots {
+				okO := false
+				for _, w := range fc.writers {
+					if w == an.ShortName(o) {
+						okO = true
+					}
+				}
+				if !okO {
+					return false
+				}
+			}
+			return true
 		}
 		return false
 	}
